@@ -21,7 +21,8 @@ from vf.oracles import eqsig_format as O
 PROP_ID = 'C16'
 TECHNIQUE = ('stateful runtime monitor over the save/load pair (model of the last record saved to each path; '
              'post-conditions on all four loaders, nested calls included) with a decimal-rounding reference oracle; '
-             'workload = one-shot round trips, same-path and interleaved save/load histories, sweep of 4-decimal dt')
+             'workload = one-shot round trips, same-path and interleaved save/load histories (refused and out-of-domain '
+             'calls in between), object histories with Python copies, A;B;A blocks, sweep of 4-decimal dt')
 RULE = ('case = one block of save_/load_ calls of the real functions on 1-3 temporary paths. one-shot: a record '
         '(1..2000 samples incl. 2**p and 2**p+-1; classes noise/walk/quake/plateau/..., extreme at first/last sample, flat '
         'ends, ending after a sign change; |v| 1e-12..1e20 (some to 1e300), small signal on offsets to 1e9, half-way '
@@ -49,7 +50,19 @@ RULE = ('case = one block of save_/load_ calls of the real functions on 1-3 temp
         'exact zeros inside; m as 0-d / one-element array; results edited in place by the caller and the path read '
         'again; objhist objects that are warm (spectra, series, peaks cached), deep copies, and objects made by the '
         'library itself (interp_to_approx_dt, resample_to_approx_dt, Cluster.signal_by_index); a complex fas2signal record '
-        'is saved as an observation only.')
+        'is saved as an observation only. Round 3 (checklist 22-27): copy.copy (rebound at once) / copy.deepcopy / pickle '
+        'round trips of cold and warm objects, copy and original then mutated and saved in both orders (objhist), and of '
+        'the object a loader returned, which is then saved again; obj.values = list/tuple/ndarray with 1, 2, 3 entries or '
+        'the current length (ignored by the clean tree) and obj.dt = x (raises) between saves; records handed to the '
+        'Signal constructor as list / tuple, label passed positionally; m as one-element list / tuple; saves that the '
+        'library refuses (None or a str inside the values, at the first / middle / last position, dt None or str, values '
+        'None, a Signal without dt) on a path that holds a record, followed by loads of that path; records with nan / inf '
+        'and dt = nan (written silently; not judged) and loads of missing / empty / header-only files (not judged) in the '
+        'middle of histories; A;B;A blocks (case kind aba): the same loader call with the same, also non-default, options '
+        'on record A before and after a record B that differs from A in the values only / dt only / label only / is a '
+        'same-size twin / is unrelated went through the savers and loaders, on two paths and on one path; dt within a '
+        'fraction 1e-3 of 1e-4, 100 and 1000 and steps J - 5e-5 + e that round up into a new leading digit; values '
+        'J - 5e-7 + e likewise (carry6); strictly positive records.')
 ASSUMPTIONS = ['the format holds values to 6 and dt to 4 decimals: "same to nd decimals" = the multiple of 10**-nd nearest '
                'to the saved number; within 4 ulps of a half-way point (exact ties included) either neighbour is accepted',
                'finite real values, length >= 1, single-line str label; dt in [1e-4, 1000] is judged (every step the '
@@ -66,6 +79,15 @@ ASSUMPTIONS = ['the format holds values to 6 and dt to 4 decimals: "same to nd d
                'a load factor m given as a 0-d or one-element array is judged like the scalar; longer arrays and complex '
                'records (fas2signal) are outside the format and only counted',
                'requested type is judged exactly: Signal requested -> type is Signal (not the subclass AccSignal)',
+               'a save that raises is outside the quantifier, but the record the path held before it is not: the loads that '
+               'follow are judged against that record (clause refused-save.leaves-previous-record). One mechanism is only '
+               'counted until it is ruled on (observation "pending-finding: non-str-label-save-empties-file"): a label that '
+               'is not a str makes the clean writer raise after open(ffp, "w") has emptied the file',
+               'the object a loader returns is an ordinary Signal: copy.copy / copy.deepcopy / a pickle round trip of it give '
+               'the same type, npts, dt, values (bit for bit) and label (clause loaded-object.copy/deepcopy/pickle==loaded)',
+               'results depend on the arguments only: the same loader call on the same saved record returns the same bits '
+               'before and after other records were processed (clause A;B;A.third==first)',
+               'an attribute that a save ATTACHES to the signal counts as a change of the signal',
                'the label is judged only when requested (load_asig(load_label=True))',
                'files are written and read within one process on a local temporary directory; nothing else touches them',
                'oracle vf/oracles/eqsig_format.py is correct (formatter and exact Decimal arithmetic cross-checked)']
@@ -81,7 +103,9 @@ MIN_EVALS = {'quick': {'npts': 120000, 'dt==round4(saved)': 120000, 'values==m*r
                        'type.load_sig->Signal': 11000, 'type.load_asig->AccSignal': 14000,
                        'history.same-path-reload': 20000, 'long-record(>65536).reload': 40,
                        'save.leaves-arguments-unchanged': 50000, 'earlier-result-intact-after-later-call': 100000,
-                       'returned-objects-share-no-memory': 90000, 'block-boundary-record(4095..65536).reload': 60},
+                       'returned-objects-share-no-memory': 90000, 'block-boundary-record(4095..65536).reload': 60,
+                       'refused-save.leaves-previous-record': 3400, 'A;B;A.third==first': 1100,
+                       'loaded-object.copy/deepcopy/pickle==loaded': 900},
              'thorough': {'npts': 2200000, 'dt==round4(saved)': 2200000, 'values==m*round6(saved)': 2200000,
                           'dt.within-half-4th-decimal': 2200000, 'values.within-half-6th-decimal': 2200000,
                           'label==saved(load_label=True)': 200000, 'call-returns': 2000000,
@@ -91,7 +115,9 @@ MIN_EVALS = {'quick': {'npts': 120000, 'dt==round4(saved)': 120000, 'values==m*r
                           'type.load_asig->AccSignal': 250000, 'history.same-path-reload': 300000,
                           'long-record(>65536).reload': 150, 'save.leaves-arguments-unchanged': 1000000,
                           'earlier-result-intact-after-later-call': 1500000,
-                          'returned-objects-share-no-memory': 1000000, 'block-boundary-record(4095..65536).reload': 300}}
+                          'returned-objects-share-no-memory': 1000000, 'block-boundary-record(4095..65536).reload': 300,
+                          'refused-save.leaves-previous-record': 30000, 'A;B;A.third==first': 10000,
+                          'loaded-object.copy/deepcopy/pickle==loaded': 8000}}
 
 CTX = None
 REG = {}        # realpath -> {'saved': op dict of the last successful save (None = unknown), 'pid': int, 'n_saves': int}
@@ -379,7 +405,9 @@ def _arguments_unchanged(op, args, kwargs):
             sig = args[1] if len(args) > 1 else kwargs['signal']
             now = sig.values if isinstance(sig.values, np.ndarray) else np.asarray(sig.values)   # (a list on old trees)
             after = _obj_state(sig)
-            changed = [k for k, f in op.get('_state', {}).items() if after.get(k) != f]
+            before = op.get('_state', {})
+            changed = [k for k, f in before.items() if after.get(k) != f]
+            changed += [k for k in after if k not in before]      # an attribute the save attached to the object
             if changed:
                 op['_changed'] = changed
             return (_same_bits(now, op['values']) and _describe_dt(sig.dt) == (op['dt'], op['dt_type'])
@@ -388,7 +416,8 @@ def _arguments_unchanged(op, args, kwargs):
         if isinstance(values, np.ndarray):
             same = _same_bits(values, op['values'])
         elif op.get('raw') is not None:
-            same = (len(values) == len(op['raw']) and all(type(a) is type(b) and a == b for a, b in zip(values, op['raw'])))
+            same = (len(values) == len(op['raw'])       # repr: exact for int / float, tells -0.0 from 0.0, nan == nan
+                    and all(type(a) is type(b) and repr(a) == repr(b) for a, b in zip(values, op['raw'])))
         else:
             same = _same_bits(np.asarray(values), op['values'])
         return same and _describe_dt(dt) == (op['dt'], op['dt_type']) and label == op['label']
@@ -411,10 +440,28 @@ def _post_save(args, kwargs, result, pre):
         _recheck_held(key)
 
 
+PENDING_LABEL = 'pending-finding: non-str-label-save-empties-file'
+
+
 def _save_failed(args, kwargs, exc, pre):
+    """A save that raised. The path must still hold what it held (a refused operation leaves the file as it was): the
+    model of the path stays the record saved before, and the loads that follow are judged against it (clause
+    refused-save.leaves-previous-record). One mechanism is routed to an observation until it is ruled on: a label that
+    is not a str makes the clean writer fail in '\\n'.join AFTER open(ffp, 'w') has emptied the file."""
     key, op, outer = pre
     prev = REG.get(key)
-    REG[key] = {'saved': None, 'pid': op['pid'], 'n_saves': (prev['n_saves'] if prev else 0) + 1}
+    e = {'saved': prev['saved'] if prev else None, 'pid': op['pid'], 'n_saves': (prev['n_saves'] if prev else 0) + 1,
+         'after_refused_save': True,
+         'refused_label_not_str': bool((prev or {}).get('refused_label_not_str')) or not isinstance(op.get('label'), str)}
+    REG[key] = e
+    CTX.observe('refused-' + op['op'])
+    v = op.get('values')
+    if isinstance(v, np.ndarray) and v.dtype.kind in 'fiu':       # purity is judged for refused arguments as well
+        CTX.check(_arguments_unchanged(op, args, kwargs), 'save.leaves-arguments-unchanged',
+                  lambda: _witness(key, saver=op['op'], refused=True, changed_attributes=op.get('_changed')),
+                  '%s raised and left the signal it was given changed (attributes %s)' % (op['op'], op.get('_changed') or ''))
+    if outer:
+        _recheck_held(key)
 
 
 # ------------------------------------------------------------------------------------------- the model
@@ -518,12 +565,28 @@ def _judge_numbers(ctx, key, loader, exp, n_got, dt_got, vals_got, m):
               % (loader, m, j, None if j is None else float(exp['v'][j]), None if j is None else float(got[j])))
 
 
+def _n_refuted(ctx):
+    return sum(ctx.viol_counts.values()) + sum(ctx.finding_counts.values())
+
+
+def _after_refused(ctx, key, loader, e, nv0):
+    """The load just judged read a path whose last save was refused (raised): everything must still be the record the
+    path held before (the judgement against that record has just been made by the ordinary clauses)."""
+    if e is not None and e.get('after_refused_save'):
+        ctx.check(_n_refuted(ctx) == nv0, 'refused-save.leaves-previous-record',
+                  lambda: _witness(key, loader=loader),
+                  '%s: after a save that raised, the path no longer loads as the record it held before' % loader)
+
+
 def _model(key):
     """Return (exp, entry) for a path, or (None, entry) when the load cannot be judged."""
     e = REG.get(key)
     if e is None:
         CTX.observe('load-of-a-file-not-saved-under-monitoring')
         return None, None
+    if e.get('after_refused_save') and e.get('refused_label_not_str'):
+        CTX.observe(PENDING_LABEL)       # not judged until ruled on (see _save_failed)
+        return None, e
     if e['saved'] is None:
         CTX.observe('load-after-failed-save')
         return None, e
@@ -632,7 +695,9 @@ def _post_load_values_and_dt(args, kwargs, result, pre):
     if not t_ok:
         ctx.observe('numbers-not-compared(wrong-type)')
         return
+    nv0 = _n_refuted(ctx)
     _judge_numbers(ctx, key, loader, exp, len(result[0]), result[1], result[0], 1.0)
+    _after_refused(ctx, key, loader, e, nv0)
     if outer:
         _history_tick(e)
         _recheck_held(key)
@@ -666,12 +731,14 @@ def _judge_object(loader, clause, want_name, key, exp, e, result, m, label_reque
     except Exception as ex:
         ctx.exception('npts', _witness(key, loader=loader), ex)
         return
+    nv0 = _n_refuted(ctx)
     _judge_numbers(ctx, key, loader, exp, n_got, dt_got, vals, m)
     if label_requested:
         got_label = getattr(result, 'label', None)
         ctx.check(got_label == exp['label'], 'label==saved(load_label=True)',
                   lambda: _witness(key, loader=loader, got_label=got_label, saved_label=exp['label']),
                   '%s: saved label %r, loaded label %r' % (loader, exp['label'], got_label))
+    _after_refused(ctx, key, loader, e, nv0)
     if outer:
         _history_tick(e)
         _recheck_held(key)
@@ -783,7 +850,14 @@ def _signal_object(eqsig, op):
         return prev
     if isinstance(vals, np.ndarray):
         vals = _apply_layout(vals, op.get('ctor_layout'))
-    sig = cls(vals, dt) if op.get('default_label') else cls(vals, dt, label=op['label'])
+        if op.get('ctor_container') in ('list', 'tuple'):      # the record itself as a Python list / tuple
+            vals = vals.tolist() if op['ctor_container'] == 'list' else tuple(vals.tolist())
+    if op.get('default_label'):
+        sig = cls(vals, dt)
+    elif op.get('label_positional'):
+        sig = cls(vals, dt, op['label'])
+    else:
+        sig = cls(vals, dt, label=op['label'])
     if 'readonly' in (op.get('layout') or []):
         sig.values.flags.writeable = False        # the object's own array, read-only: a writer must not need to write
     _LAST['sig_obj'] = sig
@@ -816,9 +890,30 @@ def _mutate(eqsig, ctx, op):
                 obj.fa_spectrum, obj.fa_frequencies
                 if isinstance(obj, eqsig.AccSignal):
                     obj.velocity, obj.displacement, obj.pga, obj.pgv
-        elif kind == 'deepcopy':         # continue with a deep copy of the (possibly warm) object
-            import copy
-            _LAST['sig_obj'] = copy.deepcopy(obj)
+        elif kind in ('deepcopy', 'copy', 'pickle'):   # continue with a copy of the (possibly warm) object; the
+            import copy                                 # original stays reachable through 'swap'
+            import pickle
+            if kind == 'deepcopy':
+                new = copy.deepcopy(obj)
+            elif kind == 'copy':
+                new = copy.copy(obj)
+            else:
+                new = pickle.loads(pickle.dumps(obj, protocol=int(op.get('protocol', pickle.HIGHEST_PROTOCOL))))
+            _LAST['sig_other'] = obj
+            _LAST['sig_obj'] = new
+        elif kind == 'swap':             # go on with the other one of (original, copy)
+            other = _LAST.get('sig_other')
+            if other is None:
+                ctx.observe('objhist-swap-skipped(no-copy)')
+                return
+            _LAST['sig_other'], _LAST['sig_obj'] = obj, other
+        elif kind == 'assign-values':    # obj.values = <list / tuple / ndarray>: ignored or applied, never half of it
+            v = _rebuild_values(op)
+            obj.values = v
+            if len(obj.values) != obj.npts:
+                ctx.observe('objhist-assign-values:npts!=len(values)')
+        elif kind == 'assign-dt':        # no setter in the clean tree: raises, the object stays as it was
+            obj.dt = _rebuild_dt(op)
         elif kind == 'interp':           # objects made by the library itself from the held one
             if isinstance(obj, eqsig.AccSignal) and 2 <= obj.npts <= 400 and obj.values.dtype.kind == 'f':
                 _LAST['sig_obj'] = eqsig.interp_to_approx_dt(obj, float(obj.dt) * op['ratio'])
@@ -834,12 +929,122 @@ def _mutate(eqsig, ctx, op):
         ctx.observe('objhist-mutator-raised(%s)' % kind)
 
 
+BAD_KINDS = ['none-first', 'none-mid', 'none-last', 'str-last', 'dt-none', 'dt-str', 'values-none', 'signal-dt-none',
+             'label-none', 'label-int', 'signal-label-none']
+
+
+def _bad_save(eqsig, ctx, op, path):
+    """A save the clean code refuses (raises): outside the quantifier, never judged itself. What IS judged: the path
+    still loads as the record it held before (monitor, clause refused-save.leaves-previous-record)."""
+    kind = op['bad']
+    if kind not in BAD_KINDS:
+        raise ValueError(kind)
+    vals = [float(x) for x in op['good']]
+    try:
+        if kind in ('none-first', 'none-mid', 'none-last', 'str-last'):
+            i = {'none-first': 0, 'none-mid': len(vals) // 2, 'none-last': len(vals) - 1, 'str-last': len(vals) - 1}[kind]
+            vals[i] = 'gap' if kind == 'str-last' else None
+            eqsig.save_values_and_dt(path, tuple(vals) if op.get('tuple') else vals, op['dt'], op['label'])
+        elif kind == 'dt-none':
+            eqsig.save_values_and_dt(path, np.array(vals), None, op['label'])
+        elif kind == 'dt-str':
+            eqsig.save_values_and_dt(path, np.array(vals), '%.4f' % op['dt'], op['label'])
+        elif kind == 'values-none':
+            eqsig.save_values_and_dt(path, None, op['dt'], op['label'])
+        elif kind == 'signal-dt-none':
+            eqsig.save_signal(path, eqsig.AccSignal(np.array(vals), None, label=op['label']))
+        elif kind == 'label-none':
+            eqsig.save_values_and_dt(path, np.array(vals), op['dt'], None)
+        elif kind == 'label-int':
+            eqsig.save_values_and_dt(path, np.array(vals), op['dt'], 7)
+        elif kind == 'signal-label-none':
+            eqsig.save_signal(path, eqsig.Signal(np.array(vals), op['dt'], label=None))
+        ctx.observe('refused-save-probe-returned(%s)' % kind)
+    except Exception:
+        ctx.observe('refused-save-probe-raised(%s)' % kind)
+    return None
+
+
+def _sig_fields(sig):
+    return (type(sig), sig.npts, repr(sig.dt), type(sig.dt), sig.label, np.array(sig.values))
+
+
+def _same_fields(a, b):
+    return a[:5] == b[:5] and _same_bits(a[5], b[5])
+
+
+def _clone_result(eqsig, ctx, op, path):
+    """copy.copy / copy.deepcopy / pickle round trip of the object a loader returned last: the copy is the same signal
+    (type, npts, dt, values bit for bit, label) and, for deep copies, owns its values. The copy replaces the loaded
+    object for a following re-save (save_signal from_last_load)."""
+    import copy
+    import pickle
+    sig = _LAST.get('sig')
+    if sig is None:
+        ctx.observe('clone-skipped(no-loaded-signal)')
+        return None
+    how = op['how']
+    clause = 'loaded-object.copy/deepcopy/pickle==loaded'
+    wit = lambda: _witness(_key(path), protocol=how)      # noqa
+    try:
+        before = _sig_fields(sig)
+        if how == 'copy':
+            new = copy.copy(sig)
+        elif how == 'deepcopy':
+            new = copy.deepcopy(sig)
+        else:
+            new = pickle.loads(pickle.dumps(sig, protocol=int(op.get('protocol', pickle.HIGHEST_PROTOCOL))))
+        ok = _same_fields(_sig_fields(new), before) and _same_fields(_sig_fields(sig), before) and new is not sig
+        if how != 'copy':
+            ok = ok and not np.may_share_memory(new.values, sig.values)
+    except Exception as e:   # noqa
+        ctx.exception(clause, wit(), e)
+        return None
+    ctx.check(ok, clause, wit, '%s of the loaded %s is not the same signal (type, npts, dt, values, label), or shares its '
+                               'values' % (how, type(sig).__name__))
+    if how == 'copy':
+        new.reset_values(np.array(new.values))      # a shallow copy shares the buffer by definition: rebind before use
+    _LAST['sig'] = new
+    return None
+
+
+def _res_fields(r):
+    if isinstance(r, tuple):
+        return ('tuple', len(r[0]), repr(r[1]), type(r[1]), None, np.array(r[0]))
+    return _sig_fields(r)
+
+
+def _aba(ctx, op, path, r):
+    """Results depend on the arguments only: the SAME loader call (same options) on the same saved record before and
+    after another record went through the library must return the same thing, bit for bit."""
+    tag, slot = op['aba']
+    store = _LAST.setdefault('aba', {})
+    if tag == 'first':
+        store[slot] = _res_fields(r)
+    elif slot in store:
+        first = store[slot]
+        now = _res_fields(r)
+        ctx.check(_same_fields(now, first), 'A;B;A.third==first',
+                  lambda: _witness(_key(path), loader=op['op'], first_values=first[5][:50], third_values=now[5][:50],
+                                   first_dt=first[2], third_dt=now[2], first_label=first[4], third_label=now[4]),
+                  '%s(%r %r): the result for record A changed after record B was processed (npts %r -> %r, dt %r -> %r, '
+                  'label %r -> %r)' % (op['op'], op.get('args'), op.get('kwargs'), first[1], now[1], first[2], now[2],
+                                       first[4], now[4]))
+
+
 LOADER_PARAMS = {'load_values_and_dt': [], 'load_signal': ['astype'], 'load_sig': ['m'], 'load_asig': ['load_label', 'm']}
 
 
 def execute(eqsig, ctx, op, path):
     """Run one op (driver- or witness-format) through the PUBLIC eqsig names. Exceptions on these in-domain calls are
     violations of the statement (a saved signal must load)."""
+    import warnings
+    with warnings.catch_warnings():
+        warnings.simplefilter('ignore')       # genfromtxt warns about the empty files of the refused-call probes
+        return _execute(eqsig, ctx, op, path)
+
+
+def _execute(eqsig, ctx, op, path):
     k = op['op']
     try:
         if k == 'save_values_and_dt' and op.get('from_held'):
@@ -880,6 +1085,16 @@ def execute(eqsig, ctx, op, path):
             if isinstance(r, eqsig.Signal):
                 _LAST['sig'] = r
             _LAST['res'] = r
+            if op.get('aba'):
+                _aba(ctx, op, path, r)
+        elif k == 'bad_save':
+            return _bad_save(eqsig, ctx, op, path)
+        elif k == 'touch':            # a file that is not in the format (not saved under monitoring; loads only counted)
+            with open(path, 'w') as f:
+                f.write(op.get('text', ''))
+            return None
+        elif k == 'clone_result':
+            return _clone_result(eqsig, ctx, op, path)
         elif k == 'new_signal':
             _LAST.pop('sig_obj', None)
             _signal_object(eqsig, dict(op, same_object_as_prev_save=False))
@@ -922,6 +1137,25 @@ def execute(eqsig, ctx, op, path):
         if op.get('out_of_domain'):
             ctx.observe('out-of-domain-call-raised')
             return None
+        ent = REG.get(_key(path)) or {}
+        if k.startswith('load_') and ent.get('saved') is not None and _expected(ent['saved']) is None:
+            ctx.observe('load-of-out-of-domain-record-raised')      # e.g. a non-finite record: outside the quantifier
+            return None
+        if k == 'save_signal' and op.get('from_last_load') and _LAST.get('sig') is not None:
+            try:
+                fin = bool(np.all(np.isfinite(np.asarray(_LAST['sig'].values, dtype=float)))) and O.dt_in_domain(_LAST['sig'].dt)
+            except Exception:
+                fin = True
+            if not fin:
+                ctx.observe('out-of-domain-call-raised')
+                return None
+        if ent.get('after_refused_save') and k.startswith('load_'):
+            if ent.get('refused_label_not_str'):
+                ctx.observe(PENDING_LABEL)        # not judged until ruled on (see _save_failed)
+                return None
+            if ent.get('saved') is not None and _expected(ent['saved']) is not None:
+                ctx.exception('refused-save.leaves-previous-record', _witness(_key(path), failed_op=k), e)
+                return None
         ctx.exception('call-returns', _witness(_key(path), failed_op=k), e)
         return None
     if op.get('out_of_domain'):
@@ -936,19 +1170,21 @@ DT_LIST = [0.0001, 0.0001, 1000, 1000.0, 0.005, 0.01, 0.02, 0.5, 0.9999, 1, 1.0,
            1.0005, 12.3456, 1.0001, 9.9999, 10.0001, 50.505, 7.0707, 3.1416, 0.1, 0.2, 0.025, 0.0025, 2, 20, 60]
 VALUE_CLASSES = ['record', 'record', 'record', 'tiny', 'halfway6', 'tie6', 'huge', 'manydigit', 'mixed', 'int', 'f32',
                  'zeros', 'micro', 'offset', 'edges', 'edges', 'narrow-int', 'narrow-int', 'f16', 'spike-dynamic', 'shape',
-                 'shape']
+                 'shape', 'carry6']
 NARROW = [np.int8, np.uint8, np.int16, np.uint16, np.int32, np.uint32]
 LABELS = ['a label with spaces', '123', '123 4', '12 0.5000', '3 0.0100', '', 'a,b', '1.5,2.5', '# hash', 'x#y',
           ' lead', 'trail ', 'two  spaces', '-1.5', '0.01', 'nan', 'm1', 'M1', 'label', 'dt=0.01 npts=100',
           'ChiChi_EW (scaled, 0.5g) #3']
 _LABEL_CHARS = ''.join(c for c in string.printable if c not in '\t\n\r\x0b\x0c')
 M_LIST = [1, 1.0, 2, 2.0, 0.5, -1, -1.0, 9.81, 0, 0.0, -0.0, np.float64(2.5), np.float32(9.81), np.int64(3), 1e-12, 1e12,
-          -1e-9, 1e9, np.array(2.5), np.array([0.5]), np.array(-1.0)]
+          -1e-9, 1e9, np.array(2.5), np.array([0.5]), np.array(-1.0), [0.5], (2.0,), [3]]
 
 
 def gen_dt(rng):
     """Returns (dt, class). Every dt is inside the judged range [1e-4, 1000]."""
-    k = int(rng.choice(13, p=[.11, .12, .17, .11, .09, .06, .04, .04, .07, .05, .05, .05, .04]))
+    k = int(rng.choice(14, p=[.10, .11, .16, .10, .08, .06, .04, .04, .07, .05, .05, .05, .04, .05]))
+    if k == 13:  # edges: within 1e-3 of the ends of the range, and steps that round UP into a new leading digit
+        return gen_dt_edge(rng)
     if k == 10:  # awkward float quotients: dt/(dt/k) != k, (dt/k)*k != dt ...
         return gen.awkward_dt(rng, int(rng.integers(2, 200))), 'awkward-quotient'
     if k == 11:  # raw reciprocals of an integer rate (1/49, 1/93, 1/128 ...): many decimals, int(1/dt) one off for some
@@ -988,6 +1224,31 @@ def gen_dt(rng):
         return int(rng.integers(1000001, 10000000)) / 10000.0, 'dt>100'
     # exact ties of the 4th decimal: odd multiples of 1/32 (5 decimals ending in 5), optionally plus whole seconds
     return (2 * int(rng.integers(0, 16)) + 1) / 32.0 + int(rng.integers(0, 100)) * int(rng.random() < 0.5), 'tie4-dyadic'
+
+
+CARRY_J = [1, 1, 2, 3, 5, 10, 10, 12, 37, 60, 99, 100, 100, 256, 999, 1000]
+
+
+def gen_dt_edge(rng):
+    """Edges of the continuous parameter dt: within a fraction 1e-3 of the ends of the stated ([1e-4, 100]) and of the
+    judged (1000) range, and steps just below a whole number J, a tenth, a hundredth ... that round UP to it in the
+    4th decimal (J - 5e-5 + e: every 9 carries, possibly into one more digit before the point)."""
+    r = int(rng.integers(0, 6))
+    u = float(rng.uniform(0, 1e-3))
+    if r == 0:
+        return 1e-4 * (1 + u), 'edge-low(1e-4*(1+<1e-3))'
+    if r == 1:
+        return float(100.0 * (1 + u * float(rng.choice([-1.0, 1.0])))), 'edge-100(1+-<1e-3)'
+    if r == 2:
+        return 1000.0 * (1 - u), 'edge-high(1000*(1-<1e-3))'
+    e = float(rng.choice([1e-9, 2e-5, 4.9e-5, 1e-12]))
+    if r == 3:     # rounds up to J.0000
+        return float(CARRY_J[int(rng.integers(len(CARRY_J)))] - 5e-5 + e), 'carry4-to-integer'
+    if r == 4:     # rounds up to 0.1000 / 0.0100 / 0.0010 (+ whole seconds)
+        base = 10.0 ** -int(rng.integers(1, 4)) + int(rng.integers(0, 3))
+        return float(base - 5e-5 + e), 'carry4-fraction'
+    # just below the carry: stays J-1 .9999
+    return float(CARRY_J[int(rng.integers(len(CARRY_J)))] - 5e-5 - float(rng.choice([1e-9, 2e-5]))), 'below-carry4'
 
 
 def gen_dt_out_of_domain(rng):
@@ -1075,7 +1336,7 @@ def gen_values(rng, n, cls=None):
         x[int(rng.integers(n))] = float(rng.choice([-1.0, 1.0])) * (np.max(np.abs(x)) + 1e-6) * 10.0 ** rng.uniform(3, 12)
         return x, cls
     if cls == 'shape':           # shapes the statement does not forbid
-        how = int(rng.integers(0, 6))
+        how = int(rng.integers(0, 7))
         amp = 10.0 ** rng.uniform(-3, 3)
         if how == 0:             # monotone / trend dominated, non-zero at both ends
             x = (5.0 + np.cumsum(np.abs(rng.normal(size=n)))) * float(rng.choice([-1.0, 1.0]))
@@ -1090,11 +1351,18 @@ def gen_values(rng, n, cls=None):
         elif how == 4:           # a single step between two non-zero levels, ends above any threshold
             x = np.full(n, 7.25)
             x[int(rng.integers(n)):] = -3.5
+        elif how == 6:           # strictly one-signed, positive: no zero, no sign change
+            x = np.abs(rng.normal(size=n)) + 0.001
         else:                    # exact zeros inside an otherwise busy record, non-zero first and last sample
             x = rng.normal(size=n) + 0.5
             x[rng.random(size=n) < 0.3] = 0.0
             x[0], x[-1] = 1.5, -2.5
         return x * amp, 'shape-%d' % how
+    if cls == 'carry6':      # just below J, J/10 ...: every 9 of the 6 decimals carries (J - 5e-7 + e rounds up to J)
+        j = np.where(rng.random(size=n) < 0.5, 10.0 ** rng.integers(-5, 7, size=n),
+                     rng.integers(1, 1001, size=n).astype(float))
+        e = rng.choice([1e-10, 2e-7, 4.9e-7, -1e-10, -2e-7], size=n)     # negative: stays at J - 0.000001
+        return sign * (j - 5e-7 + e), cls
     if cls == 'f16':
         return np.clip(rng.normal(size=n) * 10.0 ** rng.uniform(-2, 3), -6e4, 6e4).astype(np.float16), cls
     raise ValueError(cls)
@@ -1150,6 +1418,11 @@ def gen_save(rng, n=None, maxlen=2000):
         op = {'op': 'save_signal', 'sigtype': 'AccSignal' if rng.random() < 0.6 else 'Signal', 'values': vals,
               'container': 'ndarray', 'dt': dtv, 'dt_type': dtt, 'label': label, 'default_label': deflabel,
               'kw': bool(rng.random() < 0.1)}
+        if not lay and rng.random() < 0.15:        # the record itself as a Python list / tuple (floats or ints)
+            op['ctor_container'] = 'list' if rng.random() < 0.6 else 'tuple'
+            vcls += '+ctor-' + op['ctor_container']
+        if not deflabel and rng.random() < 0.15:
+            op['label_positional'] = True
         if lay:
             op['ctor_layout'] = lay                # what the constructor is given
             if 'readonly' in lay and rng.random() < 0.7:
@@ -1266,7 +1539,8 @@ def _digest(ops):
     for op in ops:
         parts.append(op['op'])
         parts.append(op.get('pid_local', 0))
-        for k in ('from_last_load', 'from_held', 'same_object_as_prev_save', 'kind', 'ffp_kw', 'kw', 'out_of_domain'):
+        for k in ('from_last_load', 'from_held', 'same_object_as_prev_save', 'kind', 'ffp_kw', 'kw', 'out_of_domain',
+                  'ctor_container', 'label_positional', 'bad', 'good', 'tuple', 'text', 'aba', 'protocol'):
             if op.get(k):
                 parts.append('%s=%r' % (k, op[k]))
         if 'values' in op:
@@ -1397,11 +1671,61 @@ def case_history(rng, npaths=1):
                 ld['pid_local'] = again['pid_local']
                 ops.append(ld)
             pl = again['pid_local']
-        if rng.random() < 0.15:       # the loaded object itself is saved again (same path) and read back
+        r_re = rng.random()
+        if r_re < 0.25:               # the loaded object itself - or a copy / deep copy / unpickled copy of it - is saved
+            if r_re < 0.13:           # again (same path) and read back
+                ops.append({'op': 'clone_result', 'how': ['copy', 'deepcopy', 'pickle'][int(rng.integers(3))],
+                            'protocol': int(rng.integers(2, 6)), 'pid_local': pl})
             ops.append({'op': 'save_signal', 'from_last_load': True, 'pid_local': pl})
             for ld in some_loads(rng, int(rng.integers(1, 4))):
                 ld['pid_local'] = pl
                 ops.append(ld)
+        r_bad = rng.random()
+        if r_bad < 0.12:              # a save that is refused (raises): the path must still hold the record it held
+            n_good = int(rng.integers(1, 40))
+            ops.append({'op': 'bad_save', 'bad': BAD_KINDS[int(rng.integers(len(BAD_KINDS)))], 'pid_local': pl,
+                        'good': [float(x) for x in np.round(rng.normal(size=n_good) * 10.0, 4)],
+                        'dt': float(gen_dt(rng)[0]), 'label': gen_label(rng)[0], 'tuple': bool(rng.random() < 0.3)})
+            for ld in some_loads(rng, int(rng.integers(1, 4))):
+                ld['pid_local'] = pl
+                ops.append(ld)
+        elif r_bad < 0.18:            # a non-finite record / time step (written silently by the clean code): outside the
+            nf, _ = gen_save(rng, maxlen=100)         # quantifier, not judged - what follows on this path and elsewhere is
+            v = np.array(nf['values'], dtype=float)
+            how = int(rng.integers(0, 4))
+            if how < 3:
+                v[int(rng.integers(len(v)))] = [np.nan, np.inf, -np.inf][how]
+                if rng.random() < 0.3:
+                    v[...] = v[int(np.flatnonzero(~np.isfinite(v))[0])]
+            else:
+                nf['dt'], nf['dt_type'] = float('nan'), 'float'
+            nf['values'] = v
+            for k in ('raw', 'layout', 'ctor_layout', 'ctor_container'):
+                nf.pop(k, None)
+            if nf.get('container') in ('list', 'tuple'):
+                nf['raw'] = v.tolist()
+            nf['_info'] = dict(nf['_info'], values='non-finite(not judged)')
+            nf['pid_local'] = pl
+            nf['out_of_domain'] = True
+            ops.append(nf)
+            last_n[pl] = len(v)
+            for ld in some_loads(rng, int(rng.integers(1, 3))):
+                ld['pid_local'] = pl
+                ld['out_of_domain'] = True
+                ops.append(ld)
+        elif r_bad < 0.22:            # a load that is refused: missing file, empty file, header only (counted), and then
+            bp = 90 + int(rng.integers(0, 3))         # loads of the live paths again
+            txt = [None, '', 'only a label', 'label\n3 0.0100'][int(rng.integers(4))]
+            if txt is not None:
+                ops.append({'op': 'touch', 'text': txt, 'pid_local': bp})
+            for ld in some_loads(rng, 1):
+                ld['pid_local'] = bp
+                ld['out_of_domain'] = True
+                ops.append(ld)
+            for q in list(last_n):
+                for ld in some_loads(rng, 1):
+                    ld['pid_local'] = q
+                    ops.append(ld)
     return ops, info0
 
 
@@ -1436,7 +1760,46 @@ def case_objhist(case_seed):
         for ld in some_loads(rng, int(rng.integers(1, 4))):
             ld['pid_local'] = pl
             ops.append(ld)
-        k = int(rng.integers(0, 12))
+        k = int(rng.integers(0, 17))
+        if k in (12, 13, 14):
+            # Python object protocols: a shallow copy (rebound at once), a deep copy or an unpickled copy of the object in
+            # its current cache state (cold, or warm after reads) goes on; copy and original are then mutated and saved in
+            # both orders, each save judged against the values of the object that was saved
+            if rng.random() < 0.6:
+                ops.append({'op': 'mutate', 'kind': 'warm'})
+            how = ['copy', 'deepcopy', 'pickle'][k - 12]
+            ops.append({'op': 'mutate', 'kind': how, 'protocol': int(rng.integers(2, 6))})
+            if how == 'copy' or rng.random() < 0.5:
+                ops.append({'op': 'mutate', 'kind': 'reset_values', 'values': gen_values(rng, n)[0], 'container': 'ndarray'})
+            else:
+                ops.append({'op': 'mutate', 'kind': 'inplace', 'index': [0, max(0, n - 1)],
+                            'new': [float(np.round(x, 3)) for x in rng.normal(size=2) * 50]})
+            first_copy = bool(rng.random() < 0.5)
+            for turn in (0, 1):
+                if (turn == 0) != first_copy:
+                    ops.append({'op': 'mutate', 'kind': 'swap'})
+                pq = int(rng.integers(npaths))
+                ops.append({'op': 'save_signal' if rng.random() < 0.7 else 'save_values_and_dt', 'from_held': True,
+                            'pid_local': pq})
+                for ld in some_loads(rng, int(rng.integers(1, 3))):
+                    ld['pid_local'] = pq
+                    ops.append(ld)
+                if (turn == 0) != first_copy:
+                    ops.append({'op': 'mutate', 'kind': 'swap'})
+            if rng.random() < 0.5:          # go on with the original; the copy stays alive
+                ops.append({'op': 'mutate', 'kind': 'swap'})
+        elif k == 15:
+            # assignment through the public names after construction: values as list / tuple / ndarray with 1, 2, 3
+            # entries or the current length (ignored by the clean tree), dt (no setter: raises), label
+            m_ = int(rng.choice([1, 2, 3, n]))
+            ops.append({'op': 'mutate', 'kind': 'assign-values', 'values': np.round(rng.normal(size=m_) * 20.0, 3),
+                        'container': ['list', 'tuple', 'ndarray'][int(rng.integers(3))]})
+            if rng.random() < 0.5:
+                ops.append({'op': 'mutate', 'kind': 'label', 'label': gen_label(rng)[0]})
+        elif k == 16:
+            d_, _ = gen_dt(rng)
+            dv_, dt_ = _describe_dt(d_)
+            ops.append({'op': 'mutate', 'kind': 'assign-dt', 'dt': dv_, 'dt_type': dt_})
         if k == 7:
             ops.append({'op': 'mutate', 'kind': 'warm'})
         elif k == 8:
@@ -1473,8 +1836,111 @@ def case_objhist(case_seed):
     for ld in all_loads(rng):
         ld['pid_local'] = pl
         ops.append(ld)
+    if rng.random() < 0.3:
+        ops.append({'op': 'clone_result', 'how': ['copy', 'deepcopy', 'pickle'][int(rng.integers(3))],
+                    'protocol': int(rng.integers(2, 6)), 'pid_local': pl})
+        ops.append({'op': 'save_signal', 'from_last_load': True, 'pid_local': pl})
+        for ld in some_loads(rng, 2):
+            ld['pid_local'] = pl
+            ops.append(ld)
     if rng.random() < 0.1:
         ops.append({'op': 'complex_probe', 'pid_local': pl})
+    return ops, info
+
+
+ABA_LOADS = [lambda rng: {'op': 'load_values_and_dt'},
+             lambda rng: {'op': 'load_signal'},
+             lambda rng: dict({'op': 'load_signal'}, **_pk(rng, 'astype', ['signal', 'acc_sig', 'sig'][int(rng.integers(3))])),
+             lambda rng: dict({'op': 'load_sig'}, **_pk(rng, 'm', gen_m(rng))),
+             lambda rng: {'op': 'load_sig'},
+             lambda rng: {'op': 'load_asig', 'kwargs': {'load_label': True, 'm': gen_m(rng)}},
+             lambda rng: {'op': 'load_asig', 'args': [bool(rng.random() < 0.5), gen_m(rng)]},
+             lambda rng: {'op': 'load_asig'}]
+
+
+def _variant_of(rng, a, how):
+    """Record B for an A;B;A pattern. 'values' / 'dt' / 'label': a record of the same shape that differs from A in that one
+    argument only (what a memo keyed on too little cannot tell apart); 'twin': same file size, other numbers; 'other':
+    an unrelated record of another shape."""
+    if how == 'other':
+        b, _ = gen_save(rng, maxlen=300)
+        return b
+    if how == 'twin':
+        return gen_twin(rng, a)
+    b = dict(a)
+    for k in ('same_object_as_prev_save',):
+        b.pop(k, None)
+    if how == 'values':
+        v = np.array(a['values'])
+        if v.dtype.kind == 'f':
+            with np.errstate(over='ignore'):
+                nv = (v.astype(float) * 0.5 + 1.0 + rng.normal(size=len(v))).astype(v.dtype)
+        else:
+            nv = v[::-1].copy()
+            if np.array_equal(nv, v):
+                nv = (v // 2 + 1).astype(v.dtype)
+        b['values'] = nv
+        if b.get('raw') is not None:
+            b['raw'] = [float(x) for x in nv.tolist()]
+            b['values'] = np.array(b['raw'])
+    elif how == 'dt':
+        d, _ = gen_dt(rng)
+        b['dt'], b['dt_type'] = _describe_dt(d)
+    else:
+        lab = a['label']
+        b['label'] = (lab[:-1] + ('x' if lab[-1:] != 'x' else 'y')) if lab else 'x'
+        b.pop('default_label', None)
+    b['_info'] = dict(a.get('_info') or {}, values=(a.get('_info') or {}).get('values', '?') + '/aba-' + how)
+    return b
+
+
+def case_aba(case_seed):
+    """Results depend on the arguments only. load side: A -> p0, B -> p1, then L(p0), L(p1), L(p0) with the SAME loader
+    call L (non-default options included) - third == first bit for bit. save side: A -> p0, L; B -> p0, L; A -> p0 (and
+    A -> p2), L: the results for A before and after B are the same. Every load is also judged against the model."""
+    rng = np.random.default_rng([16, 781, int(case_seed)])
+    a, info = gen_save(rng, maxlen=300)
+    how = ['values', 'values', 'dt', 'label', 'twin', 'other', 'other'][int(rng.integers(7))]
+    if how == 'twin':
+        b = gen_twin(rng, a)
+    else:
+        b = _variant_of(rng, a, how)
+    a2 = dict(a)                      # A once more, as an equal but distinct argument object
+    a2.pop('same_object_as_prev_save', None)
+    pick = [int(i) for i in rng.choice(len(ABA_LOADS), size=int(rng.integers(2, 5)), replace=False)]
+    if rng.random() < 0.5:            # a call that asks for the label next to one that does not (what is not requested must
+        pick = [i for i in pick if i not in (5, 6, 7)][:2] + [5, int(rng.choice([6, 7]))]     # not depend on earlier calls)
+        pick = [pick[int(i)] for i in rng.permutation(len(pick))]
+    loads = [ABA_LOADS[i](rng) for i in pick]
+    ops = []
+
+    def L(pl, tag):
+        for i, ld in enumerate(loads):
+            o = dict(ld, pid_local=pl)
+            if tag:
+                o['aba'] = (tag, i)
+            ops.append(o)
+
+    if rng.random() < 0.5:            # load side
+        ops.append(dict(a, pid_local=0))
+        ops.append(dict(b, pid_local=1))
+        L(0, 'first')
+        L(1, None)
+        L(0, 'third')
+        if rng.random() < 0.5:
+            L(1, None)
+            L(0, 'third')
+    else:                             # save side
+        ops.append(dict(a, pid_local=0))
+        L(0, 'first')
+        ops.append(dict(b, pid_local=0))
+        L(0, None)
+        ops.append(dict(a2, pid_local=0))
+        L(0, 'third')
+        if rng.random() < 0.5:
+            ops.append(dict(a2, pid_local=2))
+            L(2, 'third')
+    info = dict(info, aba=how)
     return ops, info
 
 
@@ -1585,8 +2051,8 @@ def run_long(eqsig, ctx, tmpd, counter):
                   info, counter, recipe={'kind': 'long', 'tier': ctx.tier, 'seed': int(ctx.seed), 'idx': idx})
 
 
-N_CASES = {'quick': {'oneshot': 5200, 'history': 1800, 'interleaved': 500, 'objhist': 800},
-           'thorough': {'oneshot': 60000, 'history': 20000, 'interleaved': 6000, 'objhist': 8000}}
+N_CASES = {'quick': {'oneshot': 5200, 'history': 1800, 'interleaved': 500, 'objhist': 800, 'aba': 480},
+           'thorough': {'oneshot': 60000, 'history': 20000, 'interleaved': 6000, 'objhist': 8000, 'aba': 5000}}
 
 
 def run_shard(ctx):
@@ -1597,7 +2063,7 @@ def run_shard(ctx):
     counter = [0]
     try:
         plan = N_CASES[ctx.tier]
-        for kind in ('oneshot', 'history', 'interleaved', 'objhist'):
+        for kind in ('oneshot', 'history', 'interleaved', 'objhist', 'aba'):
             n = plan[kind] // ctx.nshards + 1
             for c in range(n):
                 recipe = None
@@ -1607,6 +2073,10 @@ def run_shard(ctx):
                     cs = int(rng.integers(0, 2 ** 62))
                     ops, info = case_history_seeded(cs, kind)
                     recipe = {'kind': kind, 'case_seed': cs, 'digest': _digest(ops)}
+                elif kind == 'aba':
+                    cs = int(rng.integers(0, 2 ** 62))
+                    ops, info = case_aba(cs)
+                    recipe = {'kind': 'aba', 'case_seed': cs, 'digest': _digest(ops)}
                 else:
                     cs = int(rng.integers(0, 2 ** 62))
                     ops, info = case_objhist(cs)
@@ -1639,9 +2109,10 @@ def replay(w):
             install(ctx)
         ops = w['ops']
         rc = w.get('recipe') or {}
-        if rc.get('kind') in ('objhist', 'history', 'interleaved'):
+        if rc.get('kind') in ('objhist', 'history', 'interleaved', 'aba'):
             # regenerate the driver's block (mutators and in-place edits included)
             regen = (case_objhist(rc['case_seed'])[0] if rc['kind'] == 'objhist'
+                     else case_aba(rc['case_seed'])[0] if rc['kind'] == 'aba'
                      else case_history_seeded(rc['case_seed'], rc['kind'])[0])
             if _digest(regen) == rc.get('digest'):
                 ops = regen                  # else: the generator changed since; fall back to the recorded calls
